@@ -4,7 +4,7 @@ import xcheck
 import ileave2
 
 COLD = ["(coldi c)", "(coldi (n 1) c)", "(coldi (n 1) (n 2) c)", "(coldi (n 1))", "(coldi (n 1) (e 5) (n 2))", "(coldi (n 1) c (n 3) c)"]
-APIS = [("merge_all", "0"), ("merge_all", "1"), ("merge_all", "2"), ("merge_all", "3"), ("merge_all", "inf"),
+APIS = [("merge_all", "0"), ("merge_all", "mid"), ("merge_all", "1"), ("merge_all", "2"), ("merge_all", "3"), ("merge_all", "inf"),
         ("concat_all", "1"), ("flatten", "inf"), ("flat_map", "inf"), ("concat_map", "1")]
 
 
